@@ -126,7 +126,10 @@ class Circuit:
             self._P[k] = v
         for gate,_ in self.gate_index_list:
             if hasattr(gate, 'args') and isinstance(gate.args, _ParameterHolder):
-                tmp0 = gate.args.resolve()
+                gate._holder = gate.args #set_args below replaces .args, keep the placeholder for later setP calls
+            holder = getattr(gate, '_holder', None)
+            if holder is not None:
+                tmp0 = holder.resolve()
                 if hasattr(tmp0, '__len__'):
                     array = gate.hf0(*tmp0)
                 else:
